@@ -140,9 +140,26 @@ C06_AtMostOne(ln) ==
 \* visible to others; what others may do with them is judged by the same
 \* criterion.)
 
+\* C10 on the commit sequence: no committed transaction moves a generation backwards
+C10_Monotone(ln) ==
+  \A n \in DOMAIN ln.commits :
+     /\ \A p \in Providers(Before(ln, n)) \cap Providers(After(ln, n)) :
+           After(ln, n).rp[p].gen >= Before(ln, n).rp[p].gen
+     /\ \A c \in (DOMAIN Before(ln, n).cons) \cap (DOMAIN After(ln, n).cons) :
+           /\ After(ln, n).cons[c].gen >= Before(ln, n).cons[c].gen
+           \* a commit that changes the consumer's allocations strictly increases its generation
+           /\ (ConsAllocs(Before(ln, n), c) # ConsAllocs(After(ln, n), c)
+               /\ ln.reqs[ln.commits[n].who].op \in AllocWriters)
+                 => After(ln, n).cons[c].gen > Before(ln, n).cons[c].gen
+     \* a commit that changes a provider's inventories or traits strictly increases its generation
+     /\ \A p \in Providers(Before(ln, n)) \cap Providers(After(ln, n)) :
+           (Before(ln, n).inv[p] # After(ln, n).inv[p] \/ Before(ln, n).traits[p] # After(ln, n).traits[p])
+             => After(ln, n).rp[p].gen > Before(ln, n).rp[p].gen
+
 Verdict(ln) ==
      (IF Serializable(ln) THEN {} ELSE {"C07_Serializable"})
 \cup (IF \A k \in DOMAIN ln.reqs : ln.resps[k].status < 400 \/ ErrorJustified(ln, k) THEN {} ELSE {"ErrorJustified"})
+\cup (IF C10_Monotone(ln) THEN {} ELSE {"C10_Monotone"})
 \cup (IF C05_Commits(ln) THEN {} ELSE {"C05_Commits"})
 \cup (IF C05_AtMostOne(ln) THEN {} ELSE {"C05_AtMostOne"})
 \cup (IF C06_Commits(ln) THEN {} ELSE {"C06_Commits"})
